@@ -13,6 +13,29 @@ import random
 
 FUNC, CLASS, VALUE = "func", "class", "value"
 
+# Underscore *shapes* of identifiers (wildcard exposure and privacy rules look at the spelling only): dunder names that
+# the interpreter does not set itself, class-private style, sunder, lone underscore, trailing underscore.
+SHAPED = ["__version__", "__author__", "__marker__", "__priv", "__priv2_", "_sunder_", "_", "trail_", "__getattr__", "__dir__"]
+# Module-level hooks: they must stay *neutral* (a module `__getattr__` that answers changes what CPython itself does for
+# `from m import *`, `hasattr(m, "__all__")`, sub-module imports), so they get a fixed neutral body and are always functions.
+HOOKS = {"__getattr__": "def __getattr__(name):\n    raise AttributeError(name)",
+         "__dir__": "def __dir__():\n    return sorted(globals())"}
+
+def is_dunder(name: str) -> bool:
+    return len(name) > 4 and name.startswith("__") and name.endswith("__")
+
+
+def namespace_names(pkg: "Pkg", mod: str) -> list[str]:
+    """Identifiers spelled like the *structural* names around ``mod``: its own last component (weighted), its ancestor
+    packages, and the last components of every other module of the package (siblings, cousins, same-named modules of
+    other sub-packages).  Names of direct children are left out: a member shadowing a sub-module of its own package is
+    the documented Griffe limitation both checks exclude from their domain."""
+    own = mod.rsplit(".", 1)[-1]
+    anc = mod.split(".")[:-1]
+    children = {m.rsplit(".", 1)[1] for m in pkg.order if "." in m and m.rsplit(".", 1)[0] == mod}
+    others = sorted({m.rsplit(".", 1)[-1] for m in pkg.order} - {own} - set(anc))
+    return [n for n in [own, own, own, *anc, *others] if n not in children]
+
 
 class Pkg:
     def __init__(self, name: str) -> None:
@@ -71,7 +94,10 @@ def relative(pkg: Pkg, frm: str, target: str) -> str | None:
 
 
 def gen_package(rng: random.Random, name: str = "pk", *, hostile: bool = False, with_docs: bool = False,
-                dup_prob: float = 0.25) -> Pkg:  # noqa: C901, PLR0912, PLR0915
+                dup_prob: float = 0.25, ns_prob: float = 0.10, shape_prob: float = 0.10) -> Pkg:  # noqa: C901, PLR0912, PLR0915
+    """``ns_prob``: share of freshly bound names (definitions, import aliases) spelled like a structural name of the package
+    (own module, ancestors, other modules); ``shape_prob``: share drawn from the underscore shapes (dunder, class-private
+    style, sunder, ...)."""
     pkg = layout(rng, name)
     pool = ["alpha", "beta", "gamma", "delta", "omega", "_hidden", "_p2", "Kls", "Other", "fn", "helper"]
     for idx, mod in enumerate(pkg.order):
@@ -85,13 +111,32 @@ def gen_package(rng: random.Random, name: str = "pk", *, hostile: bool = False, 
         nstmts = rng.randint(2, 7)
         if with_docs and rng.random() < 0.5:
             lines.append(f'"""Module {mod}."""')
+        nsp = namespace_names(pkg, mod)
+
+        def special_name(*, alias: bool = False) -> str | None:
+            """A name from the namespace-spelled or underscore-shaped classes (None: the caller's ordinary choice)."""
+            q = rng.random()
+            if q < ns_prob and nsp:
+                return rng.choice(nsp)
+            if q < ns_prob + shape_prob:
+                if rng.random() < 0.3:
+                    return f"__{rng.choice(['a', 'b', 'c'])}{idx}_{len(lines)}__"
+                return rng.choice([n for n in SHAPED if not (alias and n in HOOKS)])
+            return None
+
         for _ in range(nstmts):
             r = rng.random()
             if r < 0.40 or not earlier:
-                nm = rng.choice(pool) if rng.random() < dup_prob else f"{rng.choice(['a', 'b', 'c', 'd', 'e'])}{idx}_{len(lines)}"
+                nm = special_name()
+                if nm is None:
+                    nm = rng.choice(pool) if rng.random() < dup_prob else f"{rng.choice(['a', 'b', 'c', 'd', 'e'])}{idx}_{len(lines)}"
                 kind = rng.choice([FUNC, CLASS, VALUE, VALUE])
                 if nm[0].isupper():
                     kind = CLASS
+                if nm in HOOKS:
+                    lines.append(HOOKS[nm])
+                    bound[nm] = FUNC
+                    continue
                 if kind == FUNC:
                     doc = f'\n    """Doc of {nm} in {mod}."""' if with_docs and rng.random() < 0.5 else ""
                     lines.append(f"def {nm}(x, y=0):{doc}\n    return '{mod}.{nm}'")
@@ -111,6 +156,10 @@ def gen_package(rng: random.Random, name: str = "pk", *, hostile: bool = False, 
             if r < 0.62 and src_names:
                 nm = rng.choice(src_names)
                 asname = rng.choice([None, None, nm + "_x", rng.choice(pool)])
+                if asname is not None:
+                    asname = special_name(alias=True) or asname
+                if nm in HOOKS and asname is None and rng.random() < 0.5:
+                    asname = nm + "_x"
                 if (asname or nm) in children:
                     continue  # would shadow a sub-module of this package (documented Griffe limitation)
                 lines.append(f"from {spelled} import {nm}" + (f" as {asname}" if asname else ""))
@@ -122,10 +171,27 @@ def gen_package(rng: random.Random, name: str = "pk", *, hostile: bool = False, 
                     rest = spelled[len(dots):]
                     if rest and "." not in rest:
                         asname = rng.choice([None, None, rest + "_m"])
+                        if asname is not None:
+                            asname = special_name(alias=True) or asname
+                        if (asname or rest) in children and asname is not None:
+                            continue
                         lines.append(f"from {dots} import {rest}" + (f" as {asname}" if asname else ""))
                         bound[asname or rest] = "module"
                         continue
+                if "." in src and src.rsplit(".", 1)[0] != mod and rng.random() < 0.4:
+                    # `from a.b import c [as d]`: a sub-module fetched from its package by the absolute spelling (the same
+                    # last component may well name the importing module itself, e.g. pk.s1.n0 doing `from pk.s0 import n0`)
+                    parent, rest = src.rsplit(".", 1)
+                    asname = rng.choice([None, None, special_name(alias=True) or rest + "_m"])
+                    if (asname or rest) not in children:
+                        lines.append(f"from {parent} import {rest}" + (f" as {asname}" if asname else ""))
+                        bound[asname or rest] = "module"
+                        continue
                 asname = rng.choice([None, "mod_" + src.replace(".", "_")])
+                if asname is not None:
+                    asname = special_name(alias=True) or asname
+                    if asname in children:
+                        continue
                 lines.append(f"import {src}" + (f" as {asname}" if asname else ""))
                 bound[asname or src.split(".")[0]] = "module"
             elif r < 0.88:
@@ -154,7 +220,7 @@ def gen_package(rng: random.Random, name: str = "pk", *, hostile: bool = False, 
                 pick = rng.sample(cands, rng.randint(1, min(3, len(cands))))
                 if not all_started:
                     form = rng.choice(["list", "tuple", "concat", "from_other"])
-                    if form == "from_other" and pkg.all.get(src) is not None and src_names:
+                    if form == "from_other" and pkg.all.get(src) is not None and src_names and not (set(pkg.all[src]) & children):
                         alias = "src_" + src.replace(".", "_")
                         lines.append(f"import {src} as {alias}")
                         bound[alias] = "module"
